@@ -57,7 +57,16 @@ func TestReplay(t *testing.T) {
 			out = append(out, r)
 			continue
 		}
+		onHangReplay = func(msg string) {
+			r.Violated, r.Message = true, msg
+			out = append(out, r)
+			if dir := os.Getenv("VERIF_OUT"); dir != "" {
+				b, _ := json.MarshalIndent(out, "", " ")
+				_ = os.WriteFile(filepath.Join(dir, "replay-results.json"), b, 0o644)
+			}
+		}
 		v, err := e.run(rf.Args)
+		onHangReplay = nil
 		if err != nil {
 			r.Error = err.Error()
 		} else if v != nil {
